@@ -168,6 +168,11 @@ def getId (t : Tree) (p : Pos) : Option String :=
     | _, _ => none
   | "method_call" => some t.ident
   | "gvar_decl" => if Range.has t.sel p then some t.ident else none
+  | "uses" =>
+    ((attrVals t "uses").zip (attrVals t "urng")).findSome? (fun q =>
+      match decRng q.2 with
+      | some r => if Range.has r p then some q.1 else none
+      | none => none)
   | _ => none
 
 /-- index of the method whose table is nearest to a node below top-level child `i` -/
@@ -193,7 +198,7 @@ def defOcc (file : Nat) (stem : String) (root : Tree) (p : Pos) : Occ :=
     | some par =>
       if isDot par then
         if path.getLast? == some 0 then .left id else .right (exOfTree (par.nth 0)) id
-      else if par.kind == "proc_decl" || par.kind == "func_decl" then .own id
+      else if (par.kind == "proc_decl" || par.kind == "func_decl") && path.getLast? == some 0 then .own id
       else if node.kind == "gvar_decl" then .own id
       else .plain id
     | none => .plain id
